@@ -1,4 +1,4 @@
-"""C05 - roll produces exactly the count-based sliding windows, in order.
+"""C05 - roll produces exactly the count-based sliding windows, progs, in order.
 
 Events : create / item / completed of every window key at the head of roll's inner pipeline, the
          items roll itself received (tap in front of it) and its to_list output (tap behind it),
@@ -11,7 +11,7 @@ Oracle : windows_k = items[k*s : k*s+w] for k*s < n; windows are created in orde
 import random
 
 from ..common import Check, Outcome, bootstrap, interleave, with_prelude, prelude_tags, shrink_prelude, PRELUDE_TAGS, PRELUDE_RULE
-from .. import windows
+from .. import windows, progs
 
 rs = bootstrap()
 
@@ -38,11 +38,16 @@ class C05(Check):
     RULE += PRELUDE_RULE
     ASSUMPTIONS = ['the order in which ONE source item is delivered to several simultaneously open windows is not constrained (the suite pins slot order, the property does not)']
     ANCHORS = ['rxsci/data/roll.py', 'rxsci/operators/multiplex.py']
-    REQUIRED_TAGS = ['top', 'group', 'roll', 'roll_eq', 'split', 'w<s', 'w=s', 'w>s', 'w%s!=0', 'n=0', 'n<w', 'ring-wrapped', 'w>256'] + PRELUDE_TAGS
+    REQUIRED_TAGS = ['top', 'group', 'roll', 'roll_eq', 'split', 'w<s', 'w=s', 'w>s', 'w%s!=0', 'n=0', 'n<w', 'ring-wrapped', 'w>256', 'numpy-typed-parameters'] + PRELUDE_TAGS
     REQUIRED_OBSERVED = ['child_lifetimes_checked', 'parent_lifetimes_checked', 'partial_windows_flushed']
 
     def generate(self, rng, tier, shard, nshards):
-        return with_prelude(self._generate(rng, tier, shard, nshards), rng)
+        def npp(cases):
+            for n, c in enumerate(cases):
+                if n % 5 == 3:
+                    c = dict(c, np_params=('int64', 'int32')[(n // 5) % 2])
+                yield c
+        return with_prelude(npp(self._generate(rng, tier, shard, nshards)), rng)
 
     def _generate(self, rng, tier, shard, nshards):
         return interleave(self._box(tier, shard, nshards), self._nested(rng, tier))
@@ -97,7 +102,11 @@ class C05(Check):
             out.tags.append('n=0')
         elif n < w:
             out.tags.append('n<w')
-        ob = windows.observe(case['parent_node'], ['roll', w, s, None], items, prelude=case.get('prelude'))
+        x = ['roll', w, s, None]
+        if case.get('np_params'):
+            x = progs.np_params(x, case['np_params'])
+            out.tags.append('numpy-typed-parameters')
+        ob = windows.observe(case['parent_node'], x, items, prelude=case.get('prelude'))
         prelude_tags(case, out)
         if ob.snap.err is not None or not ob.snap.done:
             return out.fail('roll:stream-error', error=repr(ob.snap.err), done=ob.snap.done)
